@@ -118,8 +118,26 @@ def decide(spec, group, tier, seed, replay=None):
     if replay:
         rj = json.load(open(replay))
         from .props_mixed import halves_equal_tokens
-        cases = [Case(l, kind=('orc' if l.split()[0].startswith(('o.', 'mp.')) else 'cmp'), tag='replay',
-                      check=(halves_equal_tokens if l.startswith('mp.') else spec.get('replay_check'))) for l in rj['lines']]
+        # the acceptance test of a replayed line is the one it was generated with: regenerate the case lists of the recorded
+        # seed and tier (main list, the search lists, the lists of the other harness groups) and look the line up; a shrunk
+        # line takes the test of the line it was shrunk from
+        origin = {}
+        try:
+            rs, rt = int(rj.get('seed', seed)), rj.get('tier', tier)
+            pools = [spec['gen'](core.Gen(rs), rt)] if 'gen' in spec else []
+            for s2 in range(1, 4): pools.append(spec['gen'](core.Gen(rs * 1000 + s2), 'quick' if rt == 'quick' else 'thorough'))
+            for xg, xgen in spec.get('extra', []): pools.append(xgen(core.Gen(rs + 17), rt))
+            for pool in pools:
+                for c in pool: origin.setdefault(c.line, c)
+        except Exception as e:
+            notes.append('could not regenerate the case lists for the replay: %r' % e)
+        parents = rj.get('shrunk_from', {})
+        def replay_case(l):
+            o = origin.get(l) or origin.get(parents.get(l, ''))
+            if o is not None: return Case(l, kind=o.kind, tag='replay', check=o.check)
+            return Case(l, kind=('orc' if l.split()[0].startswith(('o.', 'mp.')) else 'cmp'), tag='replay',
+                        check=(halves_equal_tokens if l.startswith('mp.') else spec.get('replay_check')))
+        cases = [replay_case(l) for l in rj['lines']]
     else:
         cases = []
         corpus_dir = os.path.join(core.VERIF, 'corpus', pid)
@@ -133,6 +151,7 @@ def decide(spec, group, tier, seed, replay=None):
         cases += spec['gen'](gen, tier)
 
     impl_out, model_out = {}, {}
+    shrunk_from = {}
     corr_breaks, orc_fails, known_hits = [], [], []
     harness_note = None
     with core.Scratch() as scr:
@@ -156,7 +175,9 @@ def decide(spec, group, tier, seed, replay=None):
             for j, i in enumerate(cmp_idx):
                 model_out[i] = (mcanon(mout[j]) if j < len(mout) else 'err no-output')
                 if spec.get('impl_canon'): model_out[i] = spec['impl_canon'](model_out[i], cases[i].line)
+            xprefixes = tuple(x for xg, _ in spec.get('extra', []) for x in ((xg.get('replay_prefix', 'mp.'),) if isinstance(xg.get('replay_prefix', 'mp.'), str) else tuple(xg.get('replay_prefix'))))
             for i, c in enumerate(cases):
+                if replay and xprefixes and c.line.startswith(xprefixes): continue      # belongs to another harness group (run below)
                 impl_out[i] = iout[i] if i < len(iout) else 'err no-output'
                 if spec.get('impl_canon'): impl_out[i] = spec['impl_canon'](impl_out[i], c.line)
                 if c.kind == 'cmp':
@@ -199,15 +220,20 @@ def decide(spec, group, tier, seed, replay=None):
                 notes.append('search ran %d additional oracle cases' % len(extra))
 
             # shrink the first oracle failure
-            if orc_fails and not replay and not spec.get('no_shrink') and not cases[orc_fails[0][0]].line.startswith('mp.'):
+            # shrinking is opt-in (spec['shrink']): a simplified line can leave the domain on which the oracle is valid (a
+            # singular matrix, a quadrature with too few nodes), and would then fail on correct code as well
+            if orc_fails and not replay and spec.get('shrink') and not spec.get('no_shrink') and not cases[orc_fails[0][0]].line.startswith('mp.'):
                 i, why = orc_fails[0]
                 c = cases[i]
                 chk = c.check or all_zero
                 try:
-                    small = shrink(hcmd, c, lambda l, o: bool(chk(core.parse_vals(o), o)) and not known_match(known, pid, l))
+                    o0 = impl_out.get(i, '')
+                    same_kind = (lambda o: o.startswith('ok')) if o0.startswith('ok') else (lambda o: o.split()[:2] == o0.split()[:2])
+                    small = shrink(hcmd, c, lambda l, o: same_kind(o) and bool(chk(core.parse_vals(o), o)) and not known_match(known, pid, l))
                     if small != c.line:
                         o = core.run_lines(hcmd, [small])[0]
                         cases.append(Case(small, 'orc', 'shrunk', c.check)); impl_out[len(cases) - 1] = o
+                        shrunk_from[small] = c.line
                         orc_fails.insert(0, (len(cases) - 1, chk(core.parse_vals(o), o)))
                 except Exception as e:  # shrinking is best effort
                     notes.append('shrink failed: %r' % e)
@@ -252,6 +278,7 @@ def decide(spec, group, tier, seed, replay=None):
             'n_correspondence_breaks': len(corr_breaks),
             'no_longer_checks': broken + (['correspondence model=%s vs harness group %s (%d of %d compared lines differ)' %
                                             (module, group['name'], len(corr_breaks), len([c for c in cases if c.kind == 'cmp']))] if corr_breaks else []),
+            'shrunk_from': shrunk_from,
             'replay_cmd': './check %s --replay %s' % (pid, replay_path),
         }
         json.dump(rj, open(replay_path, 'w'), indent=1)
